@@ -96,7 +96,10 @@ class Grammar:
                     break
                 origin = events[idx][1]
                 erased = events[:idx]
-                pa.spec.append((origin, tuple(erased), src, pa.line[e.src] if e.src < len(pa.line) else 0))
+                rstack = events[idx][2] if len(events[idx]) > 2 else ()
+                pa.spec.append({"origin": origin, "erased": tuple(erased), "src": src, "reset_stack": rstack, "dst": e.dst,
+                                "mark_stack": next((ev[2] for ev in erased if ev[0] == "mark" and len(ev) > 2), None),
+                                "rest": tuple(events[idx + 1:])})
                 # a mark taken in this very edge must come before any consumption of the edge
                 if origin == src:
                     pass
@@ -174,6 +177,103 @@ class Grammar:
                     changed = True
         self._nullable, self._first = nullable, first
         return nullable, first
+
+    def first2(self):
+        """FIRST_2: for every production clone the set of <=2-token prefixes of the words it can consume
+        (() = it can consume nothing, (t,) = it can consume exactly the one token t)."""
+        if getattr(self, "_first2", None) is not None:
+            return self._first2
+        F = {k: set() for k in self.pa}
+        live = {k: pa.live_nodes()[0] for k, pa in self.pa.items()}
+        changed = True
+        rounds = 0
+        while changed:
+            changed = False
+            rounds += 1
+            if rounds > 60:
+                raise AnalysisError("FIRST_2 computation does not converge")
+            for k, pa in self.pa.items():
+                lv = live[k]
+                if pa.start not in lv:
+                    continue
+                seen = {(pa.start, ())}
+                dq = deque(seen)
+                out = set()
+                while dq:
+                    x, p = dq.popleft()
+                    if len(p) == 2:
+                        out.add(p)
+                        continue
+                    if x in pa.finals:
+                        out.add(p)
+                    for i in pa.out.get(x, []):
+                        s_, ev, d, _ = pa.edges[i]
+                        if d not in lv:
+                            continue
+                        if ev is None:
+                            nxt = [p]
+                        elif ev[0] == "t":
+                            nxt = [p + (t,) for t in ev[1]]
+                        else:
+                            ck, l1, l2 = ev[1], ev[2], ev[3]
+                            nxt = []
+                            for q in F.get(ck, ()):
+                                if len(p) == 0:
+                                    if (len(q) >= 1 and q[0] not in l1) or (len(q) >= 2 and q[1] not in l2):
+                                        continue
+                                elif len(p) == 1:
+                                    if len(q) >= 1 and q[0] not in l1:
+                                        continue
+                                nxt.append((p + q)[:2])
+                        for p2 in nxt:
+                            if (d, p2) not in seen:
+                                seen.add((d, p2))
+                                dq.append((d, p2))
+                if not out <= F[k]:
+                    F[k] |= out
+                    changed = True
+        self._first2 = F
+        return F
+
+    def feasible(self, key):
+        """Edge indices of production `key` that are not call edges made under look-ahead facts (on the next two tokens)
+        with which the callee cannot start."""
+        if not hasattr(self, "_feasible"):
+            self._feasible = {}
+        if key in self._feasible:
+            return self._feasible[key]
+        F = self.first2()
+        pa = self.pa[key]
+        ok = set()
+        for i, (s, ev, d, _) in enumerate(pa.edges):
+            if ev is not None and ev[0] == "c":
+                ck, l1, l2 = ev[1], ev[2], ev[3]
+                if ck in self.pa:
+                    good = False
+                    for q in F[ck]:
+                        if len(q) == 0 or (q[0] in l1 and (len(q) == 1 or q[1] in l2)):
+                            good = True
+                            break
+                    if not good:
+                        continue
+            ok.add(i)
+        self._feasible[key] = ok
+        return ok
+
+    def can_return_from(self, key, node):
+        pa = self.pa[key]
+        ok = self.feasible(key)
+        seen = {node}
+        dq = deque([node])
+        while dq:
+            x = dq.popleft()
+            if x in pa.finals:
+                return True
+            for i in pa.out.get(x, []):
+                if i in ok and pa.edges[i][2] not in seen:
+                    seen.add(pa.edges[i][2])
+                    dq.append(pa.edges[i][2])
+        return False
 
     def first_of_name(self, name):
         _, first = self.first_sets()
